@@ -46,7 +46,10 @@ def gen(rng, tier):
         for _ in range(rng.choice([1, 2, 3, 5])):
             if rng.random() < 0.3:
                 ops.append(["sleep", rng.choice([0.05, 0.1, 0.3])])
-            subs[str(sid)] = {"script": [rng.choice(["ok", "ok", "ErrA"])], "dur": rng.choice([0.05, 0.1, 0.2, 0.5])}
+            subs[str(sid)] = {"script": [rng.choice(["ok", "ok", "ErrA"])], "dur": rng.choice([0.05, 0.1, 0.2, 0.5]),
+                              # a done-callback of the caller's that takes (virtual) time: the slot must be
+                              # free for the next job as soon as the delegate future is done, not after it
+                              "cb_dur": rng.choice([0, 0, 0, 0, 0.3])}
             ops.append(["submit", sid])
             mine.append(sid)
             sid += 1
@@ -75,7 +78,15 @@ def run(spec, env):
     def submit(s):
         i = env.rec("op", "submit-try", s)
         try:
-            return orig(s)
+            f = orig(s)
+            d = spec["subs"][str(s)].get("cb_dur")
+            if f is not None and d:
+                def slow_cb(_f, d=d, s=s):
+                    env.rec("slow-cb", s)
+                    env.sim.sleep(d)
+                    env.rec("slow-cb-end", s)
+                f.add_done_callback(slow_cb)
+            return f
         except Exception as e:  # anything but the shutdown RuntimeError handled in StackRun.submit
             env.rec("op-ret", "submit", s, "raised", type(e).__name__ + ": " + str(e)[:60], i)
             return None
@@ -193,11 +204,22 @@ def check(spec, env):
             n_enq = sum(1 for (a, b) in sub_iv.values() if b < q)
             n_hand = sum(1 for h in handed if h[0] < q)
             n_canc_queued = 0
-            for c in cr.values():
-                if c[0] < q and c[6] is True and c[5] not in [h[5] for h in handed if h[0] < c[0]]:
+            for (opseq, c) in cr.items():
+                # a cancel() that returned True took its job out of the queue; its own done-callbacks
+                # (which may take time) run inside the call, so it counts from the call's beginning
+                if opseq < q and c[6] is True and c[5] not in [h[5] for h in handed if h[0] < c[0]]:
                     n_canc_queued += 1
             queued = n_enq - n_hand - n_canc_queued
             inflight = sum(1 for h in handed if h[0] < q and fin.get(h[4], 1 << 60) > q)
+            # at a clock jump nobody is runnable, so the state is exact: jobs queued while fewer than
+            # count delegate futures are still not done means the hand-over thread sleeps on work it
+            # could do (e.g. the slot is only freed after the caller's own done-callbacks returned)
+            inflight_d = sum(1 for h in handed if h[0] < q and donemark.get(h[4], 1 << 60) > q)
+            if not block and queued > 0 and (count is None or inflight_d < count):
+                out.append({"oracle": "idle-capacity", "sig": "idle-capacity-while-everybody-sleeps|%s|%s" % (kind, mode),
+                            "msg": "at t=%.3fs nobody was runnable, %d job(s) were queued and only %d of %r handed-over futures were still not done: "
+                                   "the hand-over thread was asleep on work it could do (woken next: %r)" % (j[1] / 1e9, queued, inflight_d, count, [w[0] for w in woken])})
+                return out
             for w in woken:
                 site = w[2] or ""
                 if "throttle.py" not in site or w[1] != "SimEvent":
